@@ -188,14 +188,18 @@ Section PixelMap.
     destruct (Forall2_In_r _ _ _ _ HF Ht) as [t [Ht0 Hs]]. exists t. split; assumption.
   Qed.
 
-  (* ---- the criteria do not look at pixel positions or at the order of the pixels *)
+  (* ---- the processed pixels; the criteria of the two runs agree on corresponding own lists of
+     processed pixels (criteria that do not look at positions do so outright; contains_seeds does
+     when the seeds are mapped along and g is injective on the processed pixels) *)
+  Variable dom : Z -> Prop.
+  Definition own_in_dom (o : list (Z * Z)) : Prop := forall pv, In pv o -> dom (fst pv).
   Variables indep indep' : list (Z * Z) -> option Z -> bool.
-  Hypothesis indep_rel : forall o o' v, Permutation (map gpv o) o' -> indep' o' v = indep o v.
+  Hypothesis indep_rel : forall o o' v, own_in_dom o -> Permutation (map gpv o) o' -> indep' o' v = indep o v.
 
-  Lemma tsim_mergeable v t t' : tsim t t' -> mergeable indep' v t' = mergeable indep v t.
+  Lemma tsim_mergeable v t t' : own_in_dom (town t) -> tsim t t' -> mergeable indep' v t' = mergeable indep v t.
   Proof.
-    intros H. unfold mergeable. rewrite (tsim_leaf t t' H), (tsim_vmax t t' H).
-    rewrite (indep_rel (town t) (town t') (Some v) (tsim_own t t' H)). reflexivity.
+    intros Hd H. unfold mergeable. rewrite (tsim_leaf t t' H), (tsim_vmax t t' H).
+    rewrite (indep_rel (town t) (town t') (Some v) Hd (tsim_own t t' H)). reflexivity.
   Qed.
 
   Lemma last_removelast_perm (mg : list tree) (pv : Z * Z) :
@@ -212,14 +216,15 @@ Section PixelMap.
   Qed.
 
   Lemma tsim_meet tch tch' pv :
+    (forall t, In t tch -> own_in_dom (town t)) ->
     rsim tch tch' -> tsim (meet indep tch pv) (meet indep' tch' (gpv pv)).
   Proof.
-    intros H. unfold meet. cbn [gpv fst snd].
+    intros Hdom H. unfold meet. cbn [gpv fst snd].
     assert (Hmg : rsim (filter (mergeable indep (snd pv)) tch) (filter (mergeable indep' (snd pv)) tch')).
-    { apply rsim_filter; [exact H|]. intros t t' _ Ht. apply tsim_mergeable, Ht. }
+    { apply rsim_filter; [exact H|]. intros t t' Hin Ht. apply tsim_mergeable; [apply Hdom, Hin | exact Ht]. }
     assert (Hkeep : rsim (filter (fun t => negb (mergeable indep (snd pv) t)) tch)
                          (filter (fun t => negb (mergeable indep' (snd pv) t)) tch')).
-    { apply rsim_filter; [exact H|]. intros t t' _ Ht. rewrite (tsim_mergeable _ t t' Ht). reflexivity. }
+    { apply rsim_filter; [exact H|]. intros t t' Hin Ht. rewrite (tsim_mergeable _ t t' (Hdom t Hin) Ht). reflexivity. }
     set (mg := filter (mergeable indep (snd pv)) tch) in *.
     set (mg' := filter (mergeable indep' (snd pv)) tch') in *.
     set (keep := filter (fun t => negb (mergeable indep (snd pv) t)) tch) in *.
@@ -241,23 +246,29 @@ Section PixelMap.
   Qed.
 
   Lemma tsim_join tch tch' pv :
+    (forall t, In t tch -> own_in_dom (town t)) ->
     rsim tch tch' -> tsim (join indep tch pv) (join indep' tch' (gpv pv)).
   Proof.
-    intros H. pose proof (rsim_length tch tch' H) as Hlen.
+    intros Hdom H. pose proof (rsim_length tch tch' H) as Hlen.
     destruct tch as [|t [|t2 r]], tch' as [|t' [|t2' r']]; try discriminate Hlen.
     - cbn [join gpv fst snd]. apply tsim_node with (ks'' := []); constructor. constructor.
     - apply rsim_one_inv in H. destruct (tsim_kids t t' H) as [ks'' [HPk HFk]].
       cbn [join]. apply tsim_node with (ks'' := ks''); [|exact HPk|exact HFk].
       rewrite map_app. apply Permutation_app; [apply tsim_own, H|]. cbn [map]. apply Permutation_refl.
-    - rewrite !join_meet. apply tsim_meet, H.
+    - rewrite !join_meet. apply tsim_meet; [exact Hdom | exact H].
   Qed.
 
   (* ---- the adjacency graphs correspond on the processed pixels *)
-  Variable dom : Z -> Prop.
   Variables adj adj' : Z -> list Z.
   Hypothesis adj_iso : forall p q, dom p -> dom q -> (In (g q) (adj' (g p)) <-> In q (adj p)).
 
   Definition in_dom (R : list tree) : Prop := forall t x, In t R -> In x (region t) -> dom x.
+
+  Lemma in_dom_own R t : in_dom R -> In t R -> own_in_dom (town t).
+  Proof.
+    intros Hd Ht pv Hpv. apply (Hd t (fst pv) Ht). destruct t as [i o ks]. cbn [region town] in *.
+    apply in_or_app. left. apply in_map, Hpv.
+  Qed.
 
   Lemma tsim_touches p t t' :
     dom p -> (forall x, In x (region t) -> dom x) -> tsim t t' ->
@@ -285,6 +296,7 @@ Section PixelMap.
     - apply rsim_filter; [exact H|]. intros t t' Ht Hs.
       rewrite (tsim_touches (fst pv) t t' Hp (fun x Hx => Hd t x Ht Hx) Hs). reflexivity.
     - apply rsim_one, tsim_join.
+      { intros t Ht. apply (in_dom_own R t Hd). apply sort_by_In in Ht. apply filter_In in Ht. apply Ht. }
       apply rsim_perm_l with (filter (touches (adj (fst pv))) R); [apply Permutation_sym, sort_by_perm|].
       eapply rsim_perm_r; [|apply Permutation_sym, sort_by_perm].
       apply rsim_filter; [exact H|]. intros t t' Ht Hs.
@@ -321,12 +333,24 @@ Section PixelMap.
     intros Ho. unfold run. apply run_pixel_map_gen; [exact Ho | intros t x [] | apply rsim_nil].
   Qed.
 
-  Lemma rsim_make_trunk R R' : rsim R R' -> rsim (make_trunk indep R) (make_trunk indep' R').
+  Lemma run_in_dom_gen order : forall R, (forall pv, In pv order -> dom (fst pv)) -> in_dom R ->
+    in_dom (fold_left (step adj indep) order R).
   Proof.
-    intros H. unfold make_trunk. apply rsim_filter.
+    induction order as [|pv order IH]; intros R Ho Hd; [exact Hd|]. cbn [fold_left]. apply IH.
+    - intros q Hq. apply Ho. right. exact Hq.
+    - apply step_in_dom; [apply Ho; left; reflexivity | exact Hd].
+  Qed.
+
+  Lemma run_in_dom order : (forall pv, In pv order -> dom (fst pv)) -> in_dom (run adj indep order).
+  Proof. intros Ho. unfold run. apply run_in_dom_gen; [exact Ho | intros t x []]. Qed.
+
+  Lemma rsim_make_trunk R R' : in_dom R -> rsim R R' -> rsim (make_trunk indep R) (make_trunk indep' R').
+  Proof.
+    intros Hd H. unfold make_trunk. apply rsim_filter.
     - apply rsim_perm_l with R; [apply Permutation_sym, sort_by_perm|].
       eapply rsim_perm_r; [exact H | apply Permutation_sym, sort_by_perm].
-    - intros t t' _ Hs. rewrite (tsim_leaf t t' Hs), (indep_rel (town t) (town t') None (tsim_own t t' Hs)). reflexivity.
+    - intros t t' Ht Hs. apply sort_by_In in Ht.
+      rewrite (tsim_leaf t t' Hs), (indep_rel (town t) (town t') None (in_dom_own R t Hd Ht) (tsim_own t t' Hs)). reflexivity.
   Qed.
 
   (* final identifiers are naming only *)
@@ -387,9 +411,11 @@ Section PixelMap.
     rsim (relabel_forest (make_trunk indep (run adj indep (order_of k))))
          (relabel_forest (make_trunk indep' (run adj' indep' (order_of k')))).
   Proof.
-    intros HP Hnd Hd. unfold relabel_forest. apply rsim_relabel, rsim_make_trunk.
-    rewrite (order_of_pixel_map k k' HP Hnd). apply run_pixel_map.
-    intros pv Hpv. apply Hd. apply (Permutation_in _ (order_of_perm k)), Hpv.
+    intros HP Hnd Hd.
+    assert (Ho : forall pv, In pv (order_of k) -> dom (fst pv)).
+    { intros pv Hpv. apply Hd. apply (Permutation_in _ (order_of_perm k)), Hpv. }
+    unfold relabel_forest. apply rsim_relabel, rsim_make_trunk; [apply run_in_dom, Ho|].
+    rewrite (order_of_pixel_map k k' HP Hnd). apply run_pixel_map. exact Ho.
   Qed.
 
   (* with ties: whatever the two processing orders, the parentless regions correspond (from
@@ -431,6 +457,61 @@ Proof.
   destruct v as [v|]; cbn [indep_of]; apply forallb_ext_in'; intros c Hc.
   - destruct c; cbn [crit_at]; try (apply (Hplain _ Hc)). rewrite Hmax. reflexivity.
   - destruct c; cbn [crit_final]; try (apply (Hplain _ Hc)). rewrite Hmax, Hmin. reflexivity.
+Qed.
+
+(* ---- contains_seeds: with the seed positions mapped along, and g injective on the processed
+   pixels and the seeds, the criterion gives the same answer on corresponding own lists *)
+Definition map_crit (g : Z -> Z) (c : crit) : crit :=
+  match c with Seeds l => Seeds (map g l) | _ => c end.
+
+Lemma existsb_perm {A} (f : A -> bool) l l' : Permutation l l' -> existsb f l = existsb f l'.
+Proof.
+  induction 1 as [|x l l' _ IH|x y l|l l' l'' _ IH1 _ IH2]; cbn [existsb].
+  - reflexivity.
+  - rewrite IH. reflexivity.
+  - destruct (f x), (f y); reflexivity.
+  - rewrite IH1. exact IH2.
+Qed.
+
+Lemma existsb_ext_in {A} (f f' : A -> bool) l : (forall x, In x l -> f' x = f x) -> existsb f' l = existsb f l.
+Proof.
+  induction l as [|x l IH]; intros H; [reflexivity|]. cbn [existsb].
+  rewrite (H x (or_introl eq_refl)), IH; [reflexivity|]. intros y Hy. apply H. right. exact Hy.
+Qed.
+
+Lemma memZ_map_inj g (dom : Z -> Prop) p l :
+  (forall a b, dom a -> dom b -> g a = g b -> a = b) -> dom p -> (forall s, In s l -> dom s) ->
+  memZ (g p) (map g l) = memZ p l.
+Proof.
+  intros Hinj Hp Hl. destruct (memZ p l) eqn:E.
+  - apply memZ_In in E. apply memZ_In. apply in_map, E.
+  - apply memZ_false in E. apply memZ_false. intros H. apply in_map_iff in H. destruct H as [s [Es Hs]].
+    apply E. rewrite <- (Hinj s p (Hl s Hs) Hp Es). exact Hs.
+Qed.
+
+Theorem mapped_indep_rel g (dom : Z -> Prop) cs o o' v :
+  (forall a b, dom a -> dom b -> g a = g b -> a = b) ->
+  (forall l, In (Seeds l) cs -> forall s, In s l -> dom s) ->
+  (forall pv, In pv o -> dom (fst pv)) ->
+  Permutation (map (gpv g) o) o' ->
+  indep_of (map (map_crit g) cs) o' v = indep_of cs o v.
+Proof.
+  intros Hinj Hseeds Hdom HP.
+  assert (Hs : Permutation (map snd o) (map snd o')).
+  { rewrite <- (snd_gpv g o). apply Permutation_map, HP. }
+  assert (Hmax : vmax_l o' = vmax_l o) by (unfold vmax_l; symmetry; apply maxl_perm, Hs).
+  assert (Hmin : vmin_l o' = vmin_l o) by (unfold vmin_l; symmetry; apply minl_perm, Hs).
+  assert (Hlen : zlen o' = zlen o).
+  { unfold zlen. rewrite <- (Permutation_length HP), map_length. reflexivity. }
+  assert (Hsum : sumZ (map snd o') = sumZ (map snd o)) by (symmetry; apply sumZ_perm, Hs).
+  assert (Hplain : forall c, In c cs -> crit_plain (map_crit g c) o' = crit_plain c o).
+  { intros c Hc. destruct c; cbn [crit_plain map_crit]; try congruence.
+    rewrite <- (existsb_perm _ _ _ HP). rewrite existsb_map'.
+    apply existsb_ext_in. intros pv Hpv. cbn [gpv fst].
+    apply (memZ_map_inj g dom (fst pv) l Hinj (Hdom pv Hpv) (Hseeds l Hc)). }
+  destruct v as [v|]; cbn [indep_of]; rewrite forallb_map'; apply forallb_ext_in'; intros c Hc.
+  - destruct c; cbn [crit_at map_crit]; try (apply (Hplain _ Hc)). rewrite Hmax. reflexivity.
+  - destruct c; cbn [crit_final map_crit]; try (apply (Hplain _ Hc)). rewrite Hmax, Hmin. reflexivity.
 Qed.
 
 (* graph isomorphisms compose and the identity is one: transformations can be chained *)
